@@ -18,7 +18,7 @@ Go source, see C18Tie).
 * still open (F-18i): the reverse lookup of a key whose PrevConsKey record was cleared at the end of its epoch and that
   waits in the prune queue is in no export — `C18_full` is the property's statement for the core, `C18_full_fails` its
   counter-example on the repaired code, `C18_roundtrip_core` what holds.
-Assets, oracle, mint and fee-distribution export code is not modelled: differential run on the real app only.
+x/assets: Props/C18Assets.lean; x/exomint, x/feedistribution, x/oracle: Props/C18Mods.lean.
 -/
 namespace ExoVerif.Genesis
 open ExoVerif.Epochs
